@@ -452,6 +452,11 @@ type FactEngine struct {
 	events  map[*types.Func]bool
 	// Semantic enables the semantic meet of numeric facts (bounds prover).
 	Semantic bool
+	// Concretise, when set, may rewrite a requirement after its parameters
+	// were replaced by arguments whose static types are now known (types maps
+	// the printed argument terms to their types): an interface method call
+	// becomes the implementation's field, or the requirement is discharged.
+	Concretise func(f *Fact, types map[string]types.Type) (*Fact, bool)
 	// Accept, when set, lets a rule discharge a requirement from other
 	// facts of the state than the required one (e.g. an identity guard).
 	Accept func(st *State, f *Fact) bool
@@ -2217,6 +2222,7 @@ func (e *FactEngine) holds(fs *FuncSrc, at ast.Node, f *Fact, depth int, seen ma
 		}
 		args = append(args, call.Args...)
 		nf := f
+		argTypes := map[string]types.Type{}
 		for v := range en.vars {
 			i, isParam := pidx[v]
 			if !isParam {
@@ -2229,12 +2235,23 @@ func (e *FactEngine) holds(fs *FuncSrc, at ast.Node, f *Fact, depth int, seen ma
 			if at == nil {
 				return fail("argument " + types.ExprString(args[i]) + " at " + e.p.PosStr(call.Pos()) + " is not an access path")
 			}
+			if tt := cff.info().TypeOf(args[i]); tt != nil {
+				argTypes[at.String()] = tt
+			}
 			vs := TVar(v).String()
 			var b *Term
 			if nf.B != nil {
 				b = nf.B.subst(vs, at)
 			}
 			nf = mkFact(nf.Pos, nf.Op, nf.A.subst(vs, at), b)
+		}
+		if e.Concretise != nil {
+			nf2, done := e.Concretise(nf, argTypes)
+			if done {
+				trail = append(trail, c.cs.In.Name+" at "+e.p.PosStr(call.Pos())+": "+nf.String()+" holds for the concrete type of the argument")
+				continue
+			}
+			nf = nf2
 		}
 		r := e.holds(c.cs.In, call, nf, depth+1, seen)
 		if !r.ok {
@@ -2707,44 +2724,71 @@ func (ff *FuncFacts) refutes(b *cfg.Block, succ int, inP func(*Fact) bool) bool 
 		}
 		return out, true
 	}
-	if succ == 1 { // false edge of a conjunction of P-atoms
-		if as, ok := atomsOf(conjuncts(cond), true); ok {
-			all := true
-			for _, a := range as {
-				if !inP(a) && !ff.blockIn[b].Has(a.key) {
-					all = false
+	// refutesExpr: does assuming e with polarity pol contradict the conjunction P?
+	var refutesExpr func(e ast.Expr, pol bool, depth int) bool
+	refutesExpr = func(e ast.Expr, pol bool, depth int) bool {
+		e = unparen(e)
+		if depth > 6 {
+			return false
+		}
+		if ue, ok := e.(*ast.UnaryExpr); ok && ue.Op == token.NOT {
+			return refutesExpr(ue.X, !pol, depth+1)
+		}
+		be, isBin := e.(*ast.BinaryExpr)
+		if isBin && be.Op == token.LAND && pol {
+			// all conjuncts hold: one of them refuting is enough
+			for _, x := range conjuncts(e) {
+				if refutesExpr(x, true, depth+1) {
+					return true
 				}
 			}
-			if all && len(as) > 0 {
-				// at least one conjunct must really be an atom of P
+			return false
+		}
+		if isBin && be.Op == token.LOR && !pol {
+			// all disjuncts are false
+			for _, x := range disjuncts(e) {
+				if refutesExpr(x, false, depth+1) {
+					return true
+				}
+			}
+			return false
+		}
+		if isBin && be.Op == token.LAND && !pol {
+			// not all of the conjuncts hold: refutes P when every conjunct is an atom of P (or known to hold)
+			if as, ok := atomsOf(conjuncts(e), true); ok {
+				all, some := true, false
 				for _, a := range as {
 					if inP(a) {
-						return true
+						some = true
+					} else if !ff.blockIn[b].Has(a.key) {
+						all = false
 					}
 				}
+				return all && some
 			}
+			return false
 		}
-	}
-	if succ == 0 { // true edge of a disjunction of complements
-		if as, ok := atomsOf(disjuncts(cond), true); ok && len(as) > 1 {
-			all := true
-			for _, a := range as {
-				if !inP(complement(a)) {
-					all = false
+		if isBin && be.Op == token.LOR && pol {
+			// one of the disjuncts holds: refutes P when each is the complement of an atom of P
+			if as, ok := atomsOf(disjuncts(e), true); ok && len(as) > 1 {
+				for _, a := range as {
+					if !inP(complement(a)) {
+						return false
+					}
 				}
-			}
-			if all {
 				return true
 			}
+			return false
 		}
+		// atomic condition
+		if as, ok := atomsOf([]ast.Expr{e}, pol); ok && len(as) == 1 {
+			return inP(complement(as[0]))
+		}
+		return false
 	}
-	return false
+	return refutesExpr(cond, succ == 0, 0)
 }
 
-// ReachableNotRefuting reports whether node `to` is reachable from the entry
-// along a path on which no edge refutes the conjunction P, i.e. whether the
-// node can execute while P holds.  It returns a witness: the branch
-// positions along the path.
 func complement(f *Fact) *Fact {
 	c := *f
 	c.Pos = !f.Pos
